@@ -168,7 +168,7 @@ def pushsize(draw):
 def scriptsize(draw):
     at = draw(at_)
     sv = draw(sv_)
-    way = draw(st.sampled_from(['pushes', 'nops-unexecuted', 'big-pushes', 'successor']))
+    way = draw(st.sampled_from(['pushes', 'nops-unexecuted', 'big-pushes', 'successor', 'p2sh-redeem']))
     n = 10000 + at
     flags = draw(base_flags) & ~F['CLEANSTACK'] & ~F['MINIMALDATA']
     if way == 'pushes':
@@ -205,7 +205,14 @@ def scriptsize(draw):
         succ = script
         script = b'\x51'
         sv = R.BASE
-    return dict(script=script, stack=[], flags=flags, sv=sv, succ=succ, limit='scriptsize', way=way, at=at)
+    stack = []
+    if way == 'p2sh-redeem':
+        # ... and so is the redeem script of a pay-to-script-hash shaped script (given as a plain stack argument it can be this large)
+        stack = [script]
+        script = b'\xa9\x14' + R.ripemd(R.sha256(script)) + b'\x87'
+        flags |= F['P2SH']
+        sv = R.BASE
+    return dict(script=script, stack=stack, flags=flags, sv=sv, succ=succ, limit='scriptsize', way=way, at=at)
 
 
 @st.composite
